@@ -246,7 +246,9 @@ static inline double cmb_random_lognormal(const double m, const double s)
 static inline double cmb_random_logistic(const double m, const double s)
 {
     cmb_assert_release(s > 0.0);
-    const double x = cmb_random();
+    /* cmb_random() is on [0, 1), zero would give minus infinity */
+    double x;
+    while ((x = cmb_random()) == 0.0) {}
 
     return m + s * log(x / (1.0 - x));
 }
@@ -566,7 +568,10 @@ static inline double cmb_random_pareto(const double shape, const double mode)
     cmb_assert_release(shape > 0.0);
     cmb_assert_release(mode > 0.0);
 
-    const double x = mode / pow(cmb_random(), 1.0 / shape);
+    /* cmb_random() is on [0, 1), zero would give infinity */
+    double u;
+    while ((u = cmb_random()) == 0.0) {}
+    const double x = mode / pow(u, 1.0 / shape);
 
     cmb_assert_debug(x >= mode);
     return x;
